@@ -29,6 +29,7 @@ type stepT struct {
 	Class string  `json:"class"`
 	Hex   string  `json:"hex,omitempty"`
 	Flood *floodT `json:"flood,omitempty"`
+	Auth  *authT  `json:"auth,omitempty"`
 }
 
 // floodT: Count well-formed MSG 'C' chunks (correct channel / token, running
